@@ -223,6 +223,13 @@ func runC18C19(r *core.R, structure bool) {
 			}
 			return
 		}
+		if err != nil && op.name == "add-annotation-as-increment" && strings.Contains(f.Name, "dangling-popup-ref") {
+			// the new annotation recycles the free object number that /Popup still names, pdfcpu's own validation
+			// then refuses to write the increment: nothing is written, so neither property is at stake (the
+			// recycling itself is the recorded C21/C18 finding)
+			r.Count("increment_refused_after_recycling_a_referenced_free_number(not judged)", 1)
+			return
+		}
 		if err != nil {
 			key := "operation-failed:" + op.name + ":" + famClass(f.Name)
 			if r.Want(key) {
